@@ -217,6 +217,10 @@ func runC16(c *core.Ctx) core.Meta {
 		}
 	}
 
+	// R16.8 a finished lookup is removed alone
+	st8 := c.Rule("R16.8", "cutting a finished lookup out of Comp.transactions takes out exactly that entry: every append / in-place copy of the translator that joins two windows of one slice is append(s[:i], s[i+1:]...) or copy(s[i:], s[i+1:]) followed by a cut by one. A shifted window also removes (or duplicates) the neighbouring pending lookup, whose accesses are then never forwarded (or forwarded twice)", 1)
+	checkSliceRemovalIdiom(c, st8, "R16.8", p, "a pending lookup of another page disappears from the table together with the finished one, and the accesses waiting on it are never forwarded")
+
 	// R16.7 a finished lookup is removed from the table by identity
 	st7 := c.Rule("R16.7", "lookups are coalesced per page and per process, so several pending transactions can carry the same virtual page: wherever an entry is cut out of Comp.transactions (append(t[:i], t[i+1:]...)), the entry was selected by pointer equality with the transaction that is being finished (a *transaction parameter), not by a key such as the page address. A removal by page takes out another process's pending lookup when replies arrive out of order; its accesses are never forwarded and never answered", 1)
 	p.Instrs(func(fn *ssa.Function, in ssa.Instruction) {
